@@ -256,6 +256,17 @@ func c01Atoms(thorough bool) []qAtom {
 		add("dotted-2hop-set", true, rm.Cmp{L: fn("reports.places.name"), Op: "=", R: S("y")})
 		add("dotted-2hop-set", true, rm.Cmp{L: fn("places.people.reports"), Op: "=", R: S("e1")})
 	}
+	// a single-valued hop in front of a set (the middle level has several members)
+	for _, fn := range []func(string) rm.Lhs{anyOf, allOf} {
+		for _, other := range []string{"e1", "e3"} {
+			add("dotted-3hop", true, rm.Cmp{L: fn("boss.reports"), Op: "=", R: S(other)})
+		}
+		add("dotted-3hop", true, rm.Cmp{L: fn("boss.reports.s"), Op: "=", R: S("a")})
+		add("dotted-3hop", true, rm.Cmp{L: fn("boss.reports.s"), Op: "!=", R: S("a")})
+		add("dotted-3hop", true, rm.Cmp{L: fn("boss.boss.reports.s"), Op: "=", R: S("a")})
+		add("dotted-3hop", true, rm.Cmp{L: fn("reports.boss.reports.s"), Op: "=", R: S("a")})
+	}
+	add("dotted-3hop", true, rm.IsEmpty{Sym: "boss.reports"})
 	add("dotted-2hop-set", true, rm.IsEmpty{Sym: "reports.reports"})
 	add("dotted-2hop-set", true, rm.IsEmpty{Sym: "reports.places"})
 	add("dotted-link-name", true, rm.IsEmpty{Sym: "places.name"})
@@ -380,14 +391,18 @@ func C01(tier string) int {
 	rep.Set("families", famKeys)
 
 	type job struct {
-		key string
-		ids []string
+		key  string
+		ids  []string
+		only string // class prefix filter ("" = all filters of the family)
 	}
 	var jobs []job
 	for _, k := range famKeys {
-		jobs = append(jobs, job{k, []string{"e1", "e2"}})
+		jobs = append(jobs, job{k, []string{"e1", "e2"}, ""})
 		if (thorough && !strings.Contains(k, "+") && k != "") || k == "boss" || k == "boss+places" {
-			jobs = append(jobs, job{k, []string{"e1", "e2", "e3"}})
+			jobs = append(jobs, job{k, []string{"e1", "e2", "e3"}, ""})
+		} else if k == "boss+s" || k == "boss+roles" {
+			// three entities for the multi-hop set symbols only (a middle level with several members)
+			jobs = append(jobs, job{k, []string{"e1", "e2", "e3"}, "dotted-"})
 		}
 	}
 	var wg sync.WaitGroup
@@ -398,7 +413,16 @@ func C01(tier string) int {
 		go func() {
 			defer wg.Done()
 			for j := range jobCh {
-				c01RunFamily(rep, j.key, j.ids, fams[j.key], &typeMu)
+				fl := fams[j.key]
+				if j.only != "" {
+					fl = nil
+					for _, f := range fams[j.key] {
+						if strings.HasPrefix(f.class, j.only) && (strings.HasPrefix(f.class, "dotted-2hop-set") || strings.HasPrefix(f.class, "dotted-3hop")) {
+							fl = append(fl, f)
+						}
+					}
+				}
+				c01RunFamily(rep, j.key, j.ids, fl, &typeMu)
 			}
 		}()
 	}
